@@ -124,8 +124,9 @@ Proof. exact compile_error_dup. Qed.
 Print Assumptions compile_error_only_for_repeated_path.
 
 (* The law (Law.law_single), evaluated on the model's own outcome for ANY text, can only raise code 1 (F10) or
-   code 3 (F17): never "accepted outside the language", never a wrong path / notify flag, never another exception. *)
-Theorem model_satisfies_law : forall s c, In c (law_single s (compile_str s)) -> c = 1%Z \/ c = 3%Z.
+   code 3 (F17; code 19 is the same refusal classified as "repeated pattern not after a connector": not excluded by
+   this theorem, never produced by the model on any explored text): never "accepted outside the language", never a wrong path / notify flag, never another exception. *)
+Theorem model_satisfies_law : forall s c, In c (law_single s (compile_str s)) -> c = 1%Z \/ c = 3%Z \/ c = 19%Z.
 Proof. exact model_law. Qed.
 Print Assumptions model_satisfies_law.
 
@@ -165,7 +166,7 @@ Proof. exact expr_meaning. Qed.
 Print Assumptions expression_meaning.
 
 Theorem model_satisfies_expression_law : forall e c,
-  In c (law_expr e (match create_graphs e [] with Some gs => Graphs gs | None => CompileError end)) -> c = 3%Z.
+  In c (law_expr e (match create_graphs e [] with Some gs => Graphs gs | None => CompileError end)) -> c = 3%Z \/ c = 19%Z.
 Proof. exact expr_law. Qed.
 Print Assumptions model_satisfies_expression_law.
 
@@ -272,19 +273,19 @@ Proof. vm_compute. repeat split; try reflexivity. discriminate. Qed.
 (* Non-vacuity for hooks_meaning, on the probe heap of the correspondence (root with child, kids = list of two Leafs,
    table = dict with one Leaf value, group = set of one Leaf; metadata tag = True, False, 0, "", (), None, absent):
    "+tag" hooks the five traits whose tag is not None on the root (codes 0..4); "child:+tag" the same five on the child
-   without hooking child itself; "child.*" hooks child and all eight traits of the child; "kids.items.t_zero" hooks
-   kids (10), the list itself (16*2+9) and t_zero on both items (objects 3, 4); "table:items:+other" only t_other of the
-   dict's value (object 6); "nope" and "kids.t_true" raise. *)
+   without hooking child itself; "child.*" hooks child and every trait of the child (its eight numbers, trait_added, trait_modified, the later-added
+   zz_new); "kids.items.t_zero" hooks kids (10), the list itself (32*2+9) and t_zero on both items (objects 3, 4);
+   "table:items:+other" only t_other of the dict's value (object 6); "nope" and "kids.t_true" raise. *)
 Open Scope Z_scope.
 Example hooks_nontrivial :
   let txt l := map (fun c => of_code c false) l in
   let run s := match compile_str s with Graphs gs => flat_map (hook_graph probe_heap 0%nat) gs | _ => [] end in
   hit_codes (run (txt [43; 116; 97; 103])) = [0; 1; 2; 3; 4]
-  /\ hit_codes (run (txt [99; 104; 105; 108; 100; 58; 43; 116; 97; 103])) = [16; 17; 18; 19; 20]
-  /\ hit_codes (run (txt [99; 104; 105; 108; 100; 46; 42])) = [8; 16; 17; 18; 19; 20; 21; 22; 23]
+  /\ hit_codes (run (txt [99; 104; 105; 108; 100; 58; 43; 116; 97; 103])) = [32; 33; 34; 35; 36]
+  /\ hit_codes (run (txt [99; 104; 105; 108; 100; 46; 42])) = [8; 32; 33; 34; 35; 36; 37; 38; 39; 45; 46; 48]
   /\ zset_eqb (hit_codes (run (txt [107; 105; 100; 115; 46; 105; 116; 101; 109; 115; 46; 116; 95; 122; 101; 114; 111])))
-              [10; 41; 50; 66] = true
-  /\ hit_codes (run (txt [116; 97; 98; 108; 101; 58; 105; 116; 101; 109; 115; 58; 43; 111; 116; 104; 101; 114])) = [103]
+              [10; 73; 98; 130] = true
+  /\ hit_codes (run (txt [116; 97; 98; 108; 101; 58; 105; 116; 101; 109; 115; 58; 43; 111; 116; 104; 101; 114])) = [199]
   /\ has_err (run (txt [110; 111; 112; 101])) = true
   /\ has_err (run (txt [107; 105; 100; 115; 46; 116; 95; 116; 114; 117; 101])) = true
   /\ has_err (run (txt [43; 116; 97; 103])) = false.
